@@ -1,4 +1,5 @@
 import EtVerif.Props.C04
+import EtVerif.Props.TrC04
 #print axioms EtVerif.C04.canonicalize_sum_one
 #print axioms EtVerif.C04.canonicalize_ok_iff
 #print axioms EtVerif.C04.canonicalize_ratio
@@ -26,3 +27,6 @@ import EtVerif.Props.C04
 #print axioms EtVerif.C04.canonTV_scale_invariant
 #print axioms EtVerif.C04.pipeline_scale_invariant
 #print axioms EtVerif.C04.canonicalize_pow2_equivariant
+-- refinement of the translated Go kernels (Gen/Translated.lean, regenerated from /repo) to the model
+#print axioms EtVerif.TrC04.canonicalize_refines
+#print axioms EtVerif.TrC04.canonicalizeTrustVector_refines
